@@ -26,6 +26,11 @@ impl<'a, 'b, 'c> Site<'a, 'b, 'c> {
         Site { case, exp, cx }
     }
 
+    /// The call site spells out `(inspect: false)` on its fmt/value/sval/serde attribute.
+    pub fn inspect_false(&self) -> bool {
+        self.case.effective_inspect_false()
+    }
+
     pub fn finish<P: Props>(&mut self, props: &P) -> Res {
         let mut reads = Vec::new();
         if let Err(f) = drive(props, self.exp.key, &self.case.hops, 0, want_for(self.case), &mut reads) {
@@ -98,15 +103,201 @@ macro_rules! opt_emit_for {
     (Error, $rt:expr, $e:expr) => { emit::emit!(rt: $rt, "c19 {v}", #[emit::optional] #[emit::as_error] v: $e) };
 }
 
+// ---- `(inspect: false)` spelled out: a third stamping of the fmt/value/sval/serde attribute sites.
+// An explicit `inspect: false` can only mean "no inspection": judged with exactly the bare attribute's clauses.
+
+macro_rules! site_plain {
+    (Display, $site:ident, $k:ident, $e:expr) => {
+        if $site.inspect_false() {
+            let p = emit::props! { #[emit::as_display(inspect: false)] $k: $e };
+            $site.finish(&p)
+        } else {
+            let p = props_for!(Display, $k, $e);
+            $site.finish(&p)
+        }
+    };
+    (Debug, $site:ident, $k:ident, $e:expr) => {
+        if $site.inspect_false() {
+            let p = emit::props! { #[emit::as_debug(inspect: false)] $k: $e };
+            $site.finish(&p)
+        } else {
+            let p = props_for!(Debug, $k, $e);
+            $site.finish(&p)
+        }
+    };
+    (Value, $site:ident, $k:ident, $e:expr) => {
+        if $site.inspect_false() {
+            let p = emit::props! { #[emit::as_value(inspect: false)] $k: $e };
+            $site.finish(&p)
+        } else {
+            let p = props_for!(Value, $k, $e);
+            $site.finish(&p)
+        }
+    };
+    (Sval, $site:ident, $k:ident, $e:expr) => {
+        if $site.inspect_false() {
+            let p = emit::props! { #[emit::as_sval(inspect: false)] $k: $e };
+            $site.finish(&p)
+        } else {
+            let p = props_for!(Sval, $k, $e);
+            $site.finish(&p)
+        }
+    };
+    (Serde, $site:ident, $k:ident, $e:expr) => {
+        if $site.inspect_false() {
+            let p = emit::props! { #[emit::as_serde(inspect: false)] $k: $e };
+            $site.finish(&p)
+        } else {
+            let p = props_for!(Serde, $k, $e);
+            $site.finish(&p)
+        }
+    };
+    ($m:ident, $site:ident, $k:ident, $e:expr) => {{
+        let p = props_for!($m, $k, $e);
+        $site.finish(&p)
+    }};
+}
+macro_rules! site_opt {
+    (Display, $site:ident, $k:ident, $e:expr) => {
+        if $site.inspect_false() {
+            let p = emit::props! { #[emit::optional] #[emit::as_display(inspect: false)] $k: $e };
+            $site.finish(&p)
+        } else {
+            let p = opt_props_for!(Display, $k, $e);
+            $site.finish(&p)
+        }
+    };
+    (Debug, $site:ident, $k:ident, $e:expr) => {
+        if $site.inspect_false() {
+            let p = emit::props! { #[emit::optional] #[emit::as_debug(inspect: false)] $k: $e };
+            $site.finish(&p)
+        } else {
+            let p = opt_props_for!(Debug, $k, $e);
+            $site.finish(&p)
+        }
+    };
+    (Value, $site:ident, $k:ident, $e:expr) => {
+        if $site.inspect_false() {
+            let p = emit::props! { #[emit::optional] #[emit::as_value(inspect: false)] $k: $e };
+            $site.finish(&p)
+        } else {
+            let p = opt_props_for!(Value, $k, $e);
+            $site.finish(&p)
+        }
+    };
+    (Sval, $site:ident, $k:ident, $e:expr) => {
+        if $site.inspect_false() {
+            let p = emit::props! { #[emit::optional] #[emit::as_sval(inspect: false)] $k: $e };
+            $site.finish(&p)
+        } else {
+            let p = opt_props_for!(Sval, $k, $e);
+            $site.finish(&p)
+        }
+    };
+    (Serde, $site:ident, $k:ident, $e:expr) => {
+        if $site.inspect_false() {
+            let p = emit::props! { #[emit::optional] #[emit::as_serde(inspect: false)] $k: $e };
+            $site.finish(&p)
+        } else {
+            let p = opt_props_for!(Serde, $k, $e);
+            $site.finish(&p)
+        }
+    };
+    ($m:ident, $site:ident, $k:ident, $e:expr) => {{
+        let p = opt_props_for!($m, $k, $e);
+        $site.finish(&p)
+    }};
+}
+macro_rules! esite_plain {
+    (Display, $site:ident, $e:expr) => {
+        if $site.inspect_false() {
+            $site.finish_emit(|rt| emit::emit!(rt: rt, "c19 {v}", #[emit::as_display(inspect: false)] v: $e))
+        } else {
+            $site.finish_emit(|rt| emit_for!(Display, rt, $e))
+        }
+    };
+    (Debug, $site:ident, $e:expr) => {
+        if $site.inspect_false() {
+            $site.finish_emit(|rt| emit::emit!(rt: rt, "c19 {v}", #[emit::as_debug(inspect: false)] v: $e))
+        } else {
+            $site.finish_emit(|rt| emit_for!(Debug, rt, $e))
+        }
+    };
+    (Value, $site:ident, $e:expr) => {
+        if $site.inspect_false() {
+            $site.finish_emit(|rt| emit::emit!(rt: rt, "c19 {v}", #[emit::as_value(inspect: false)] v: $e))
+        } else {
+            $site.finish_emit(|rt| emit_for!(Value, rt, $e))
+        }
+    };
+    (Sval, $site:ident, $e:expr) => {
+        if $site.inspect_false() {
+            $site.finish_emit(|rt| emit::emit!(rt: rt, "c19 {v}", #[emit::as_sval(inspect: false)] v: $e))
+        } else {
+            $site.finish_emit(|rt| emit_for!(Sval, rt, $e))
+        }
+    };
+    (Serde, $site:ident, $e:expr) => {
+        if $site.inspect_false() {
+            $site.finish_emit(|rt| emit::emit!(rt: rt, "c19 {v}", #[emit::as_serde(inspect: false)] v: $e))
+        } else {
+            $site.finish_emit(|rt| emit_for!(Serde, rt, $e))
+        }
+    };
+    ($m:ident, $site:ident, $e:expr) => {
+        $site.finish_emit(|rt| emit_for!($m, rt, $e))
+    };
+}
+macro_rules! esite_opt {
+    (Display, $site:ident, $e:expr) => {
+        if $site.inspect_false() {
+            $site.finish_emit(|rt| emit::emit!(rt: rt, "c19 {v}", #[emit::optional] #[emit::as_display(inspect: false)] v: $e))
+        } else {
+            $site.finish_emit(|rt| opt_emit_for!(Display, rt, $e))
+        }
+    };
+    (Debug, $site:ident, $e:expr) => {
+        if $site.inspect_false() {
+            $site.finish_emit(|rt| emit::emit!(rt: rt, "c19 {v}", #[emit::optional] #[emit::as_debug(inspect: false)] v: $e))
+        } else {
+            $site.finish_emit(|rt| opt_emit_for!(Debug, rt, $e))
+        }
+    };
+    (Value, $site:ident, $e:expr) => {
+        if $site.inspect_false() {
+            $site.finish_emit(|rt| emit::emit!(rt: rt, "c19 {v}", #[emit::optional] #[emit::as_value(inspect: false)] v: $e))
+        } else {
+            $site.finish_emit(|rt| opt_emit_for!(Value, rt, $e))
+        }
+    };
+    (Sval, $site:ident, $e:expr) => {
+        if $site.inspect_false() {
+            $site.finish_emit(|rt| emit::emit!(rt: rt, "c19 {v}", #[emit::optional] #[emit::as_sval(inspect: false)] v: $e))
+        } else {
+            $site.finish_emit(|rt| opt_emit_for!(Sval, rt, $e))
+        }
+    };
+    (Serde, $site:ident, $e:expr) => {
+        if $site.inspect_false() {
+            $site.finish_emit(|rt| emit::emit!(rt: rt, "c19 {v}", #[emit::optional] #[emit::as_serde(inspect: false)] v: $e))
+        } else {
+            $site.finish_emit(|rt| opt_emit_for!(Serde, rt, $e))
+        }
+    };
+    ($m:ident, $site:ident, $e:expr) => {
+        $site.finish_emit(|rt| opt_emit_for!($m, rt, $e))
+    };
+}
+
 /// The `emit::emit!` twin of `sites!`.
 macro_rules! emit_sites {
     ($site:ident, $x:expr, $some:expr; $($mode:ident)+) => {
         match ($site.case.mode, $site.case.opt) {
             $(
-                (Mode::$mode, Opt::Plain) => $site.finish_emit(|rt| emit_for!($mode, rt, $x)),
+                (Mode::$mode, Opt::Plain) => esite_plain!($mode, $site, $x),
                 (Mode::$mode, o) => {
                     let ov = if o == Opt::Some { $some } else { None };
-                    $site.finish_emit(|rt| opt_emit_for!($mode, rt, ov))
+                    esite_opt!($mode, $site, ov)
                 }
             )+
             #[allow(unreachable_patterns)]
@@ -153,14 +344,10 @@ macro_rules! sites {
     ($site:ident, $k:ident, $x:expr, $some:expr; $($mode:ident)+) => {
         match ($site.case.mode, $site.case.opt) {
             $(
-                (Mode::$mode, Opt::Plain) => {
-                    let p = props_for!($mode, $k, $x);
-                    $site.finish(&p)
-                }
+                (Mode::$mode, Opt::Plain) => site_plain!($mode, $site, $k, $x),
                 (Mode::$mode, o) => {
                     let ov = if o == Opt::Some { $some } else { None };
-                    let p = opt_props_for!($mode, $k, ov);
-                    $site.finish(&p)
+                    site_opt!($mode, $site, $k, ov)
                 }
             )+
             #[allow(unreachable_patterns)]
@@ -421,6 +608,7 @@ fn check_derived(case: &Case, d: &derived::DSpec, cx: &mut Cx) -> Res {
 fn classify(case: &Case, cx: &mut Cx) {
     cx.class(case.mode.class());
     cx.class_if(case.mode.inspect(), "attr:inspect");
+    cx.class_if(case.effective_inspect_false() && !case.stacked.is_some(), "attr:inspect-false");
     match case.opt {
         Opt::Plain => {}
         Opt::Some => cx.class("optional:some"),
